@@ -49,6 +49,7 @@ type ZodObjectInternals struct {
 	UnknownKeys        ObjectMode
 	IsPartial          bool
 	PartialExceptions  map[string]bool
+	RequiredKeys       map[string]bool // fields Required made mandatory, whatever their schema or Partial says
 	HasUserRefinements bool
 }
 
@@ -379,24 +380,40 @@ func (z *ZodObject[T, R]) Partial(keys ...[]string) *ZodObject[T, R] {
 	oi := z.newObjectInternals(newInternals)
 	oi.IsPartial = true
 	oi.PartialExceptions = partialExceptions
+	// Partial wins over an earlier Required for the fields it makes optional.
+	if partialExceptions == nil {
+		oi.RequiredKeys = nil
+	} else if len(oi.RequiredKeys) > 0 {
+		kept := make(map[string]bool, len(oi.RequiredKeys))
+		for k := range oi.RequiredKeys {
+			if partialExceptions[k] {
+				kept[k] = true
+			}
+		}
+		oi.RequiredKeys = kept
+	}
 	return &ZodObject[T, R]{internals: oi}
 }
 
-// Required makes all fields required, or specific fields if provided.
+// Required makes all fields required, or specific fields if provided. The other fields
+// keep their state (required, optional by schema, or made optional by Partial).
 func (z *ZodObject[T, R]) Required(fields ...[]string) *ZodObject[T, R] {
 	newInternals := z.internals.Clone()
 
-	var partialExceptions map[string]bool
+	required := make(map[string]bool, len(z.internals.Shape))
 	if len(fields) > 0 && len(fields[0]) > 0 {
-		partialExceptions = make(map[string]bool, len(fields[0]))
+		maps.Copy(required, z.internals.RequiredKeys)
 		for _, fieldName := range fields[0] {
-			partialExceptions[fieldName] = true
+			required[fieldName] = true
+		}
+	} else {
+		for fieldName := range z.internals.Shape {
+			required[fieldName] = true
 		}
 	}
 
 	oi := z.newObjectInternals(newInternals)
-	oi.IsPartial = true
-	oi.PartialExceptions = partialExceptions
+	oi.RequiredKeys = required
 	return &ZodObject[T, R]{internals: oi}
 }
 
@@ -510,6 +527,7 @@ func (z *ZodObject[T, R]) newObjectInternals(in *core.ZodTypeInternals) *ZodObje
 		UnknownKeys:        z.internals.UnknownKeys,
 		IsPartial:          z.internals.IsPartial,
 		PartialExceptions:  z.internals.PartialExceptions,
+		RequiredKeys:       z.internals.RequiredKeys,
 		HasUserRefinements: z.internals.HasUserRefinements,
 	}
 }
@@ -795,6 +813,9 @@ func (z *ZodObject[T, R]) validateField(value any, schema core.ZodSchema, ctx *c
 func (z *ZodObject[T, R]) isFieldOptional(schema core.ZodSchema, field string) bool {
 	if schema == nil {
 		return true
+	}
+	if z.internals.RequiredKeys[field] {
+		return false
 	}
 	if z.internals.IsPartial {
 		if z.internals.PartialExceptions == nil {
